@@ -4,7 +4,8 @@
 (* Build phase (spec -> code): a frame of the grammar is damaged by         *)
 (* structure-aware mutations - a field the parsers trust (a length, a       *)
 (* count, a type selector, an option header; table Fields) is overwritten   *)
-(* with a boundary value (classes MutVals), possibly several times, and the *)
+(* with a boundary value (classes MutVals) or with a selector value that   *)
+(* dispatches to another parser (Sel), possibly several times, and the      *)
 (* result may be truncated.  Checksums are re-computed afterwards by the    *)
 (* harness, so the damage reaches the code behind checksum verification.    *)
 (* Seal fixes the scenario; the harness turns it into bytes.                *)
@@ -65,6 +66,30 @@ Fields(l) ==
     [] k \in {"ns", "na"} -> IF h > 20 THEN {F(20, 1), F(21, 1)} ELSE {}
     [] OTHER -> {}        \* echo unreach timex echo6 unreach6 timex6: no structure of their own
 
+\* Selector fields and the values that dispatch to ANOTHER parser: writing one of them hands the
+\* bytes of this frame to a parser they were not made for (value class "s<n>").
+L2Types == {2048, 2054, 32821, 33024, 34525, 35020, 34958, 34887, 34888, 1500, 1535, 1536}
+IpProtos == {0, 1, 2, 4, 6, 17, 41, 43, 44, 47, 58, 59, 60}
+Sel(l, f) ==
+  LET k == l.k IN
+  CASE k = "eth" /\ f = F(12, 2) -> L2Types
+    [] k = "vlan" /\ f = F(2, 2) -> L2Types
+    [] k = "llc" /\ f = F(6, 2) -> L2Types
+    [] k = "ip4" /\ f = F(9, 1) -> IpProtos
+    [] k = "ip6" /\ f \in {F(6, 1), F(40, 1), F(48, 1)} -> IpProtos
+    [] k = "udp" /\ f \in {F(0, 2), F(2, 2)} -> {53, 67, 68, 520, 4789, 5353}
+    [] k = "icmp" /\ f = F(0, 1) -> {0, 3, 5, 8, 11}
+    [] k = "icmp6" /\ f = F(0, 1) -> {1, 2, 3, 4, 128, 129, 133, 134, 135, 136, 137}
+    [] k = "gre" /\ f = F(2, 2) -> {2048, 25944, 34525}
+    [] k = "eapol" /\ f = F(1, 1) -> {0, 1, 2, 3, 4}
+    [] k = "eap" /\ f \in {F(0, 1), F(4, 1)} -> {1, 2, 3, 4, 254}
+    [] k = "tcp" /\ f = F(20, 1) -> {0, 1, 2, 3, 4, 5, 8, 30}
+    [] k = "igmp" /\ f = F(0, 1) -> {17, 18, 22, 23, 34}
+    [] k = "dhcp" /\ f \in {F(240, 1), F(243, 1)} -> {0, 1, 3, 6, 51, 52, 53, 55, 255}
+    [] k \in {"rs", "ra", "ns", "na"} /\ f \in {F(4, 1), F(12, 1), F(20, 1)} -> {1, 2, 3, 5, 14}
+    [] OTHER -> {}
+ValsFor(l, f) == MutVals \cup {"s" \o ToString(x) : x \in Sel(l, f)}
+
 MutFrames == UNION { { Frame(x.st, p, 0) : p \in (IF Leaf(x.st) THEN {0} ELSE MutPay) } : x \in Stacks }
 
 AllKinds == {"eth", "vlan", "llc", "mpls", "arp", "ip4", "ip6", "udp", "tcp", "icmp", "echo", "unreach",
@@ -108,7 +133,7 @@ Seal ==
   /\ pc = "build" /\ muts # <<>>
   /\ pc' = "offer" /\ n' = cutm
   /\ UNCHANGED <<frm, muts, cutm, chain, rest>>
-MutateSome == \E i \in 1..Len(frm.st) : \E f \in Fields(frm.st[i]) : \E val \in MutVals : Mutate(i, f, val)
+MutateSome == \E i \in 1..Len(frm.st) : \E f \in Fields(frm.st[i]) : \E val \in ValsFor(frm.st[i], f) : Mutate(i, f, val)
 TruncateSome == \E c \in 0..Total(frm) : Truncate(c)
 NextBuild == MutateSome \/ TruncateSome \/ Seal
 
